@@ -46,7 +46,7 @@ class ModelEmitter(object):
         if cb is None:
             self.e[name] = []
         else:
-            self.e[name] = [x for x in self.e.get(name, []) if x.cb is not cb]
+            self.e[name] = [x for x in self.e.get(name, []) if x.cb != cb]      # "that callback": equality, so a re-fetched bound method counts
 
     def emit(self, name, *args):
         for ent in list(self.e.get(name, [])):       # subscriptions changed during delivery count from the next emit
@@ -58,7 +58,7 @@ class ModelEmitter(object):
             ent.cb(*args, **ent.ctx)
 
     def table(self, name, ident):
-        return [(ident[x.cb], sorted(x.ctx.items()), x.once) for x in self.e.get(name, [])]
+        return [(ident(x.cb), sorted(x.ctx.items()), x.once) for x in self.e.get(name, [])]
 
 
 class Driver(object):
@@ -70,8 +70,31 @@ class Driver(object):
         self.depth = 0
         self.nested = 0
         self.stats = stats if stats is not None else {}
-        self.cbs = [self._mk(i) for i in range(NCB)]
-        self.ident = dict((cb, i) for i, cb in enumerate(self.cbs))
+        closures = [self._mk(i) for i in range(NCB)]
+        drv = self
+
+        class Host(object):
+            # callbacks 3 and 4 are bound methods: every attribute access builds a new, equal, method object
+            def m3(self, *args, **ctx):
+                return closures[3](*args, **ctx)
+
+            def m4(self, *args, **ctx):
+                return closures[4](*args, **ctx)
+        self.host = Host()
+        self._closures = closures
+        self.current = []
+
+    @property
+    def cbs(self):
+        return [self._closures[0], self._closures[1], self._closures[2], self.host.m3, self.host.m4]
+
+    def ident(self, cb):
+        for i, c in enumerate(self.cbs):
+            if c == cb:
+                return i
+        return '?'
+
+    def _unused(self):
         self.current = []
 
     def _mk(self, i):
@@ -125,7 +148,7 @@ def real_table(em, name, ident):
         fn = l.fn
         once = hasattr(fn, '_')
         base = fn._ if once else fn
-        out.append((ident.get(base, '?'), sorted(l.ctx.items()), once))
+        out.append((ident(base), sorted(l.ctx.items()), once))
     return out
 
 
@@ -233,7 +256,7 @@ LAWS = [
         required=('nested-same-name', 'during-delivery:on', 'during-delivery:off', 'during-delivery:offcb', 'during-delivery:once',
                   'duplicate-subscription', 'op:once', 'op:offcb', 'impl:parser', 'impl:emitter'),
         quick=4000, thorough=160000, shards=(8, 16),
-        rule='history = 3-38 top-level operations (2-6 subscriptions, then 1-8 rounds of up to 3 arbitrary operations followed by an emit) (on/once with or without context, off(name), off(name,callback), emit(name,args)) over 3 names x 5 callbacks; '
+        rule='history = 3-38 top-level operations (2-6 subscriptions, then 1-8 rounds of up to 3 arbitrary operations followed by an emit) (on/once with or without context, off(name), off(name,callback), emit(name,args)) over 3 names x 5 callbacks (two of them bound methods of a host object, fetched anew for every on/once/off, so equal but not identical); '
              'each callback carries a generated script of up to 3x3 operations it performs when invoked; oracle = reference emitter run in lockstep, '
              'compared after every operation on the delivery log (callback, arguments incl. the emitted name, context; order included) and on the listener table; '
              'non-trivial = at least two listeners on one name, at least one off/once, at least two deliveries'),
